@@ -22,6 +22,13 @@ inductive Err
   | outOfModel    -- a value the model does not cover (exotic int() syntax); never compared
 deriving Repr, DecidableEq
 
+/-- decidable equality of results (scoped: only where this namespace is open) -/
+scoped instance {ε α : Type} [DecidableEq ε] [DecidableEq α] : DecidableEq (Except ε α)
+  | .ok a, .ok b => if h : a = b then isTrue (by rw [h]) else isFalse (fun e => h (by cases e; rfl))
+  | .error a, .error b => if h : a = b then isTrue (by rw [h]) else isFalse (fun e => h (by cases e; rfl))
+  | .ok _, .error _ => isFalse (fun e => by cases e)
+  | .error _, .ok _ => isFalse (fun e => by cases e)
+
 /-! ### slices -/
 
 /-- `s[a:b]` for non-negative `a`, `b` -/
